@@ -68,6 +68,27 @@ def diag_neighbours(dendrogram, idx):
     return out
 
 
+def holes_neighbours(case):
+    """user-supplied adjacency on an irregular mesh: face neighbours, except that the nodes listed in
+    case['isolated'] are connected to nothing (their neighbour list is empty)"""
+    shape = tuple(case['shape'])
+    iso = set(case.get('isolated', []))
+
+    def result(dendrogram, idx):
+        c = tuple(int(x) for x in idx)
+        if int(np.ravel_multi_index(c, shape)) in iso:
+            return []
+        out = []
+        for a in range(len(shape)):
+            for o in (1, -1):
+                cc = list(c)
+                cc[a] += o
+                if 0 <= cc[a] < shape[a] and int(np.ravel_multi_index(cc, shape)) not in iso:
+                    out.append(tuple(cc))
+        return out
+    return result
+
+
 def model_adjacency(case):
     """explicit neighbour lists (flat indices) for a user-supplied adjacency, as the model sees it"""
     import itertools
@@ -83,6 +104,13 @@ def model_adjacency(case):
                     cc = [a + b for a, b in zip(c, off)]
                     if all(0 <= x < s for x, s in zip(cc, shape)):
                         qs.append(int(np.ravel_multi_index(cc, shape)))
+            ent.append('%d:%s' % (p, '.'.join(str(q) for q in qs)))
+        return ';'.join(ent)
+    if case.get('adj', 'grid') == 'holes':
+        f = holes_neighbours(case)
+        ent = []
+        for p in range(n):
+            qs = [int(np.ravel_multi_index(c, shape)) for c in f(None, np.unravel_index(p, shape))]
             ent.append('%d:%s' % (p, '.'.join(str(q) for q in qs)))
         return ';'.join(ent)
     return 'grid'
@@ -154,6 +182,8 @@ def compute_impl(case, verbose=False, neighbours_obj=None):
         kw['neighbours'] = neighbours_obj or periodic_neighbours(per if len(per) != 1 or case.get('per_as_list') else per[0])
     elif case.get('adj', 'grid') == 'diag':
         kw['neighbours'] = diag_neighbours
+    elif case.get('adj', 'grid') == 'holes':
+        kw['neighbours'] = holes_neighbours(case)
     if case.get('reuse'):
         # objects reused across calls, as a long script would: the same criteria list object and the same
         # neighbours object were first used for ANOTHER array (other shape) with stricter parameters.
